@@ -140,12 +140,12 @@ type Report struct {
 	Property    string         `json:"property"`
 	Seed        uint64         `json:"seed"`
 	Tier        string         `json:"tier"`
-	Evaluations int            `json:"evaluations"`          // oracle evaluations (cases checked)
-	Nontrivial  map[string]int `json:"nontrivial"`           // distinct canonical cases that reached the property's branch, by class
-	Dist        map[string]int `json:"distribution"`         // input distribution: op kinds, sizes, outcomes
-	Samples     []interface{}  `json:"samples"`              // a few actual cases
-	Violations  []Violation    `json:"violations"`           // oracle failures on the implementation
-	Known       []Violation    `json:"known_replays"`        // replays of known findings that still fail
+	Evaluations int            `json:"evaluations"`   // oracle evaluations (cases checked)
+	Nontrivial  map[string]int `json:"nontrivial"`    // distinct canonical cases that reached the property's branch, by class
+	Dist        map[string]int `json:"distribution"`  // input distribution: op kinds, sizes, outcomes
+	Samples     []interface{}  `json:"samples"`       // a few actual cases
+	Violations  []Violation    `json:"violations"`    // oracle failures on the implementation
+	Known       []Violation    `json:"known_replays"` // replays of known findings that still fail
 	Notes       []string       `json:"notes,omitempty"`
 	distinct    map[string]struct{}
 	perSig      map[string]int
@@ -159,7 +159,7 @@ func NewReport(prop string) *Report {
 	return &Report{Property: prop, Seed: Seed(), Tier: tier, Nontrivial: map[string]int{}, Dist: map[string]int{}, Violations: []Violation{}, Known: []Violation{}, Samples: []interface{}{},
 		distinct: map[string]struct{}{}}
 }
-func (r *Report) Count(k string)        { r.Dist[k]++ }
+func (r *Report) Count(k string)         { r.Dist[k]++ }
 func (r *Report) CountN(k string, n int) { r.Dist[k] += n }
 
 // Distinct records a canonical non-trivial case of the given class; duplicates are not counted twice.
